@@ -152,7 +152,7 @@ func VerifyFunction(P *Program, C *Contracts, fn *ssa.Function, fc *FuncContract
 		params[i].Typ = p.Type()
 	}
 	if fn.Signature.Recv() != nil && len(params) > 0 && params[0].K == KScalar {
-		if _, isPtr := under(fn.Signature.Recv().Type()).(*types.Pointer); isPtr {
+		if _, isPtr := under(fn.Signature.Recv().Type()).(*types.Pointer); isPtr && !(fc != nil && fc.NilRecv) {
 			e.ctx.Assume(not(eq(params[0].T, "0")))
 			e.note("method receivers are assumed non-nil")
 		}
@@ -204,6 +204,25 @@ func VerifyFunction(P *Program, C *Contracts, fn *ssa.Function, fc *FuncContract
 		}
 	}
 	res.Obs = e.obs
+	if fc != nil && len(fc.Claims) > 0 {
+		// a partial contract: only the named groups of obligations are claimed (and
+		// solved); everything else about the function is left undecided
+		var keep []*Obligation
+		for _, o := range e.obs {
+			local := strings.TrimPrefix(o.Name, e.topName+"/")
+			ok := o.expect() == "sat"
+			for _, c := range fc.Claims {
+				if strings.HasPrefix(local, c) {
+					ok = true
+				}
+			}
+			if ok {
+				keep = append(keep, o)
+			}
+		}
+		e.note(fmt.Sprintf("partial contract: only the obligations %s of %s are claimed (%d others not attempted)", strings.Join(fc.Claims, ", "), e.topName, len(e.obs)-len(keep)))
+		res.Obs = keep
+	}
 	return res
 }
 
